@@ -10,7 +10,7 @@ for d in $(ls $WT/benign_*.diff 2>/dev/null | sort); do
   if [ "$passed" = "37" ] && [ "$failed" = "0" ]; then
     mkdir -p /verif/seeded/benign/S$N
     cp $d /verif/seeded/benign/S$N/patch.diff
-    echo "[sub-agent $TAG, round 6] $(cat $WT/benign_$i.txt 2>/dev/null | head -3)" > /verif/seeded/benign/S$N/desc.txt
+    echo "[sub-agent $TAG] $(cat $WT/benign_$i.txt 2>/dev/null | head -3)" > /verif/seeded/benign/S$N/desc.txt
     echo "S$N <- $d (37 passed)"
     N=$((N+1))
   else
